@@ -290,6 +290,12 @@ def _run_face(case, ctx):
     cached2 = float(np.asarray(gh.face_areas.values, float)[0])
     if cached2 != cached:
         bad("cache_equals_fresh", "after-later-call", "changed", f"{cached!r} -> {cached2!r}")
+    # calls that leave everything to the documented defaults are the default rule ("triangular", order 4)
+    gd_ = _grid(ll, [base])
+    a_noargs = float(np.asarray(gd_.compute_face_areas()[0], float)[0])
+    t_noargs = float(_grid(ll, [base]).calculate_total_face_area())
+    if abs(a_noargs - a_def) > 1e-12 * max(exact, a_def) + 1e-16 or abs(t_noargs - a_def) > 1e-12 * max(exact, a_def) + 1e-16:
+        bad("cache_equals_fresh", "defaults", "differs", f"compute_face_areas() {a_noargs!r}, calculate_total_face_area() {t_noargs!r}, default rule spelled out {a_def!r}")
     return fails
 
 
